@@ -130,3 +130,9 @@ Definition merge_case (bias : bool) (Wc Wn tol x : Q) : bool := close tol (merge
 
 (* which sub-key reproduces, bit for bit, the momentum of each leaf (found by the harness) *)
 Definition momentum_case (n : nat) (obs : list Z) : bool := list_eqb Z.eqb (leaf_keys n) obs.
+
+(* resumed chains: samples (as the integer bit patterns of their float64 entries) of one run against
+   the concatenation of the segments; number of key advances of every returned core state *)
+Definition resume_case (one : list (list Z)) (segs : list (list (list Z))) : bool :=
+  list_eqb (list_eqb Z.eqb) one (concat segs).
+Definition key_case (num_samples observed : nat) : bool := Nat.eqb (key_advances num_samples) observed.
